@@ -2,7 +2,8 @@
 //! and the value family's reference model (what a spec's tag must produce).
 use serde::{Deserialize, Serialize};
 
-pub const TY_NAMES: [&str; 9] = ["()", "u8", "u64", "[u8;3]", "[u8;24]", "[u64;512]", "align64", "align4096", "Vec<u8>"];
+pub const TY_NAMES: [&str; 13] = ["()", "u8", "u64", "[u8;3]", "[u8;24]", "[u64;512]", "align64", "align4096", "Vec<u8>", "bool", "char", "Option<u8>", "fieldless-enum"];
+pub const NTY: u8 = 13;
 pub const TY_VEC: u8 = 8;
 
 pub const DISP_JOIN: u8 = 0;
@@ -119,14 +120,28 @@ pub fn value_len(ty: u8, tag: u64) -> usize {
         5 => 4096,
         6 => 9,
         7 => 24,
+        9 => 1,
+        10 => 4,
+        11 => 2,
+        12 => 1,
         _ => (splitmix(tag ^ 0x0abc) % 301) as usize,
     }
 }
 
-/// (hash, len) of the value: every type of the family is the first `len` bytes of the tag's byte stream.
+/// (hash, len) of the value: types 0..=8 are the first `len` bytes of the tag's byte stream; the
+/// niche-carrying types 9..=12 (whose `Option` keeps `None` outside the all-zero pattern) are a
+/// function of its first bytes.
 pub fn expected_value(ty: u8, tag: u64) -> (u64, u32) {
     let n = value_len(ty, tag);
-    (fnv((0..n).map(|k| sbyte(tag, k))), n as u32)
+    let b = |k: usize| sbyte(tag, k);
+    let bytes: Vec<u8> = match ty {
+        9 => vec![b(0) & 1],
+        10 => (u32::from_le_bytes([b(0), b(1), b(2), b(3)]) % 0xD800).to_le_bytes().to_vec(),
+        11 => vec![b(0) & 1, if b(0) & 1 == 1 { b(1) } else { 0 }],
+        12 => vec![b(0) % 3],
+        _ => (0..n).map(b).collect(),
+    };
+    (fnv(bytes.into_iter()), n as u32)
 }
 
 pub fn expected_buf(tag: u64, n: usize) -> u64 {
